@@ -391,7 +391,7 @@ func enumerate(alphabet, length int, f func([]int)) {
 }
 
 func partA(c *kit.Ctx) (depth, nRand int) {
-	depth, nRand = 3, 500
+	depth, nRand = 3, 300
 	if c.Thorough() {
 		depth, nRand = 4, 6000
 	}
